@@ -17,21 +17,81 @@ Definition scale (sys : inv) (e : elt) : Q :=
 Lemma scale_nonneg sys e : 0 <= scale sys e.
 Proof. unfold scale. destruct (String.eqb e eCharge). apply sum_abs_except_nonneg. apply Qabs_nonneg. Qed.
 
-(* after(e) = expected(e) within tol * inventory(e) *)
-Definition bal_ok (tol : Q) (expected after : inv) (e : elt) : Prop :=
-  Qabs (get e after - get e expected) <= tol * scale expected e.
-Definition bal_okb (tol : Q) (expected after : inv) (e : elt) : bool :=
-  Qle_bool (Qabs (get e after - get e expected)) (tol * scale expected e).
+(* after(e) = expected(e) within tol * inventory(e) + floor   (floor: an absolute amount below one atom) *)
+Definition bal_ok (tol floor : Q) (expected after : inv) (e : elt) : Prop :=
+  Qabs (get e after - get e expected) <= tol * scale expected e + floor.
 
-Definition check_balance (tol : Q) (expected after : inv) : bool :=
-  forallb (bal_okb tol expected after) (keys expected ++ keys after).
+(* executable versions that keep the rationals reduced (Qplus multiplies denominators) *)
+Fixpoint getr (e : elt) (a : inv) : Q :=
+  match a with
+  | nil => 0
+  | (k, v) :: r => if String.eqb k e then Qred (v + getr e r) else getr e r
+  end.
 
-Theorem check_balance_sound : forall tol expected after,
-  0 <= tol -> check_balance tol expected after = true -> forall e, bal_ok tol expected after e.
+Lemma getr_get e a : getr e a == get e a.
 Proof.
-  intros tol expected after Ht H e. unfold check_balance in H. rewrite forallb_forall in H.
+  induction a as [|[k v] a IH]; cbn [getr]; rewrite ?get_cons, ?(get_nil e).
+  - reflexivity.
+  - destruct (String.eqb k e).
+    + rewrite Qred_correct, IH. reflexivity.
+    + rewrite IH. ring.
+Qed.
+
+Fixpoint sum_abs_except_r (ex : elt -> bool) (a : inv) : Q :=
+  match a with
+  | nil => 0
+  | (k, v) :: r => if ex k then sum_abs_except_r ex r else Qred (Qabs v + sum_abs_except_r ex r)
+  end.
+
+Lemma sum_abs_except_r_ok ex a : sum_abs_except_r ex a == sum_abs_except ex a.
+Proof.
+  induction a as [|[k v] a IH]; cbn [sum_abs_except_r sum_abs_except].
+  - reflexivity.
+  - destruct (ex k).
+    + rewrite IH. ring.
+    + rewrite Qred_correct, IH. reflexivity.
+Qed.
+
+Definition scale_r (sys : inv) (e : elt) : Q :=
+  if String.eqb e eCharge then sum_abs_except_r not_ionic sys else Qabs (getr e sys).
+
+Lemma scale_r_ok sys e : scale_r sys e == scale sys e.
+Proof.
+  unfold scale_r, scale. destruct (String.eqb e eCharge).
+  - apply sum_abs_except_r_ok.
+  - rewrite getr_get. reflexivity.
+Qed.
+
+Definition bal_okb (tol floor : Q) (expected after : inv) (e : elt) : bool :=
+  Qle_bool (Qabs (getr e after - getr e expected)) (tol * scale_r expected e + floor).
+
+Lemma bal_okb_ok tol floor expected after e :
+  bal_okb tol floor expected after e = true -> bal_ok tol floor expected after e.
+Proof.
+  unfold bal_okb, bal_ok. intro H. apply Qle_bool_iff in H.
+  rewrite !getr_get, scale_r_ok in H. exact H.
+Qed.
+
+Definition check_on (tol floor : Q) (expected after : inv) (es : list elt) : bool :=
+  forallb (bal_okb tol floor expected after) (nodup string_dec es).
+
+Lemma check_on_sound tol floor expected after es :
+  check_on tol floor expected after es = true -> forall e, In e es -> bal_ok tol floor expected after e.
+Proof.
+  unfold check_on. rewrite forallb_forall. intros H e I. apply bal_okb_ok. apply H.
+  apply nodup_In. exact I.
+Qed.
+
+Definition check_balance (tol floor : Q) (expected after : inv) : bool :=
+  check_on tol floor expected after (keys expected ++ keys after).
+
+Theorem check_balance_sound : forall tol floor expected after,
+  0 <= tol -> 0 <= floor ->
+  check_balance tol floor expected after = true -> forall e, bal_ok tol floor expected after e.
+Proof.
+  intros tol floor expected after Ht Hf H e. unfold check_balance in H.
   destruct (in_dec string_dec e (keys expected ++ keys after)) as [I|N].
-  - apply H in I. unfold bal_okb in I. apply Qle_bool_iff in I. exact I.
+  - exact (check_on_sound _ _ _ _ _ H e I).
   - unfold bal_ok. rewrite in_app_iff in N.
     rewrite (get_notin e expected), (get_notin e after) by tauto.
     assert (Z0 : Qabs (0 - 0) == 0) by reflexivity. rewrite Z0.
@@ -61,13 +121,13 @@ Section Check.
     total_amount stepf (c_incr c) (c_equal c) (c_steps c) (c_count c) (c_units c) (c_nsteps c).
 
   (* run the model of step() on what the implementation started from, compare with what it saved *)
-  Definition check_case (tol : Q) (c : ccase) : bool :=
+  Definition check_case (tol floor : Q) (c : ccase) : bool :=
     match u_kinetics (c_use c) with
     | Some _ => false
     | None =>
       match assemble (c_use c) (case_amount c) with
       | Ok x pp' ss' =>
-          check_balance tol (flat x ++ oinv inv_pp pp' ++ oinv inv_pas ss' ++ oinv inv_kin (c_kin c))
+          check_balance tol floor (flat x ++ oinv inv_pp pp' ++ oinv inv_pas ss' ++ oinv inv_kin (c_kin c))
                         (inv_ents (c_after c))
           && nonneg_all (amounts (c_after c))
       | NoSolution => false
@@ -79,13 +139,13 @@ Section Check.
     inv_use (c_use c) ++ oinv inv_kin (c_kin c) ++
     iscale (case_amount c) (oinv reaction_calc (u_reaction (c_use c))).
 
-  Theorem check_case_sound : forall tol c,
-    0 <= tol -> check_case tol c = true ->
+  Theorem check_case_sound : forall tol floor c,
+    0 <= tol -> 0 <= floor -> check_case tol floor c = true ->
     (forall e, exists sys, ieq sys (expected_inv c) /\
-               Qabs (get e (inv_ents (c_after c)) - get e (expected_inv c)) <= tol * scale sys e) /\
+               Qabs (get e (inv_ents (c_after c)) - get e (expected_inv c)) <= tol * scale sys e + floor) /\
     Forall (fun a => 0 <= a) (amounts (c_after c)).
   Proof.
-    intros tol c Ht H. unfold check_case in H.
+    intros tol floor c Ht Hf H. unfold check_case in H.
     destruct (u_kinetics (c_use c)) eqn:Hk; [discriminate|].
     destruct (assemble (c_use c) (case_amount c)) as [x pp' ss'|] eqn:Ha; [|discriminate].
     apply andb_true_iff in H. destruct H as [Hb Hn]. split.
@@ -95,12 +155,35 @@ Section Check.
       { intro e'. pose proof (assemble_is_sum _ _ _ _ _ Ha e') as S. rewrite Hk in S.
         unfold sys, expected_inv. cbn [oinv] in S. rewrite !get_app in *. rewrite (get_nil e') in S. lra. }
       exists sys. split. exact Hs.
-      pose proof (check_balance_sound tol sys _ Ht Hb e) as B. unfold bal_ok in B.
+      pose proof (check_balance_sound tol floor sys _ Ht Hf Hb e) as B. unfold bal_ok in B.
       rewrite <- (Hs e). exact B.
     - apply nonneg_all_sound. exact Hn.
+  Qed.
+
+  (* ---- per-step cross-check: what SYS("element") (+ kinetic reactants) reports after step k *)
+  Record rcase := mkRows {
+    r_base : inv;                     (* inventory before the first step *)
+    r_rxn : inv;                      (* elements of one mole of reaction *)
+    r_incr : bool; r_equal : bool; r_steps : list Q; r_count : Z; r_units : Z;
+    r_rows : list inv }.              (* row k: observed totals after step k (listed elements only) *)
+
+  Definition row_expected (c : rcase) (k : nat) : inv :=
+    r_base c ++ iscale (total_amount stepf (r_incr c) (r_equal c) (r_steps c) (r_count c) (r_units c) k) (r_rxn c).
+
+  Definition check_rows (tol floor : Q) (c : rcase) : bool :=
+    forallb (fun p => check_on tol floor (row_expected c (fst p)) (snd p) (keys (snd p)))
+            (combine (seq 1 (length (r_rows c))) (r_rows c)).
+
+  Theorem check_rows_sound : forall tol floor c,
+    check_rows tol floor c = true ->
+    forall k row, In (k, row) (combine (seq 1 (length (r_rows c))) (r_rows c)) ->
+    forall e, In e (keys row) -> bal_ok tol floor (row_expected c k) row e.
+  Proof.
+    intros tol floor c H k row I e Ie. unfold check_rows in H. rewrite forallb_forall in H.
+    specialize (H (k, row) I). cbn [fst snd] in H. exact (check_on_sound _ _ _ _ _ H e Ie).
   Qed.
 End Check.
 
 Example check_balance_example :
-  check_balance (1 # 1000000) [("Ca"%string, 1 # 2); ("Cl"%string, 1)] [("Cl"%string, 1); ("Ca"%string, 1 # 2)] = true.
+  check_balance (1 # 1000000) 0 [("Ca"%string, 1 # 2); ("Cl"%string, 1)] [("Cl"%string, 1); ("Ca"%string, 1 # 2)] = true.
 Proof. vm_compute. reflexivity. Qed.
